@@ -28,7 +28,8 @@ class _Cexptrk_Potential_Function(object):
     label = func._potential_form_tuple.signature.label
     try:
       self._local_symbol_table.functions[label] = func
-    except cexprtk._exceptions.NameShadowException as e:
+    except (cexprtk._exceptions.NameShadowException, KeyError) as e:
+      # KeyError: the label is already used by one of this form's own parameters
       msg = "Name clash for potential-form '{}': {}".format(label, str(e))
       raise Potential_Form_Exception(msg)
       
